@@ -208,7 +208,7 @@ class Server:
                 return buf
         return buf
 
-    def request(self, sbdir, file, args=(), snap=False):
+    def request(self, sbdir, file, args=(), snap=False, timeout=None):
         if self.pr is None or self.pr.poll() is not None:
             self._spawn()
         for a in (sbdir, file, *args):
@@ -221,7 +221,7 @@ class Server:
             self.pr.stdin.flush()
         except (BrokenPipeError, OSError):
             return self._fail()
-        deadline = time.monotonic() + self.timeout
+        deadline = time.monotonic() + (timeout or self.timeout)
         hdr = self._readline(deadline)
         if hdr is None or not hdr.startswith(b"#BEGIN"):
             if hdr is not None and hdr.startswith(b"#ERR"):
@@ -347,6 +347,7 @@ class Runner:
         self.parity_checked = 0
         self.parity_mismatch = []
         self.lock = _load_lock()
+        self._slow = None
         self.stats = {"inproc": 0, "blackbox": 0, "hang_candidates": 0, "hang_believed": 0, "inconclusive_load": 0}
 
     def run(self, sb, file, args=(), snap=False, force_blackbox=False):
@@ -396,6 +397,15 @@ class Runner:
                 if o.kind not in ("timeout", "hard"):
                     self.stats["inconclusive_load"] += 1
                     return False, o
+            # the 500 ms watchdog is wall-clock: on a machine loaded by *other* processes a finite but slow analysis can print
+            # `timeout` three times. A real hang never finishes: give the in-process rounds a generous deadline as a cross-check.
+            if os.path.exists(self.bins.server):
+                if self._slow is None:
+                    self._slow = Server(self.bins.server, timeout=8.0)
+                o2 = self._slow.request(sbdir, file, args, timeout=8.0)
+                if o2.kind in ("ok", "crash"):
+                    self.stats["inconclusive_load"] += 1
+                    return False, o
             self.stats["hang_believed"] += 1
             return True, o
         finally:
@@ -409,6 +419,8 @@ class Runner:
     def close(self):
         if self.server:
             self.server.close()
+        if self._slow:
+            self._slow.close()
         try:
             self.lock.close()
         except Exception:
